@@ -18,7 +18,7 @@ func init() {
 	register(&Prop{
 		ID: "C07",
 		Rule: "format specs enumerated over verb {e,E,f,F,g,G} x precision {absent,0..40} x width {absent,1..40} x 32 flag subsets of {+,-,#,space,0}; each spec is applied to values engineered for carries, ties (even/odd kept digit, empty kept prefix), " +
-			"g/G switch-over, zeros, 35-digit coefficients, large exponents, and to values a float64 holds exactly. Three oracle layers: L1 digits = exact half-even rounding in big.Int; L2 byte-equality with fmt on the float64 of the same exact value; " +
+			"g/G switch-over, zeros, 35-digit coefficients, large exponents, and to values a float64 holds exactly. Oracle layers: L1 digits = exact half-even rounding in big.Int, and the complete text (body layout, %g switch-over and zero trimming, #, sign flags, width, 0/- padding) from an independent model of the fmt/strconv rules applied to those digits for every finite value with an explicit precision (the model is validated against the installed fmt at the start of the run); L2 byte-equality with fmt on the float64 of the same exact value; " +
 			"L3 Decimal.Append == Sprintf and package Format/Append(prec) agree with L1. non-trivial = a finite value whose digits had to be rounded, or an L2-comparable case with width/flags; distinct = distinct (spec, value).",
 		Run:    runC07,
 		Replay: replayC07,
